@@ -196,6 +196,9 @@ class Violin(object):
         """ Compute stats """
         data = self._data
 
+        # Compute stats from finite values only (like the kde below)
+        data = data.where(np.isfinite(data))
+
         # Compute stats
         self.stat_median = data.median()
 
